@@ -744,7 +744,7 @@ wrapped_interval<Number>::operator||(const wrapped_interval<Number> &x) const {
       new_start = (m_start * wrapint(2, w)) - m_end - wrapint(1, w);
     }
     return join | wrapped_interval<Number>(new_start, m_end);
-  } else if (x.at(m_start) && x.at(m_end)) {
+  } else if (*this <= x) {
     // in principle we should increase by some power of two the end
     // point while reducing by the same power of two the start
     // one. We just increase the end and this will eventually reach
@@ -885,7 +885,7 @@ wrapped_interval<Number> wrapped_interval<Number>::widening_thresholds(
     }
     // TODO: apply thresholds
     return join | wrapped_interval<Number>(new_start, m_end);
-  } else if (x.at(m_start) && x.at(m_end)) {
+  } else if (*this <= x) {
     // in principle we should increase by some power of two the end
     // point while reducing by the same power of two the start
     // one. We just increase the end and this will eventually reach
